@@ -323,7 +323,7 @@ func standingAssumptions() []string {
 		"partial correctness: termination is claimed only for loops with a decreases clause",
 		"no concurrency: functions are verified as sequential code",
 		"calls into fmt, errors, strings, strconv, unicode, path, regexp, gleece's logger and the gopher-fleece runtime constants without an explicit contract are assumed to have no effect on caller-visible heap; strings/strconv/unicode results are deterministic functions of value arguments",
-		"a callee with neither contract nor effect-free classification havocs the whole heap and returns arbitrary values",
+		"a callee with neither contract nor effect-free classification havocs the whole heap and returns arbitrary values; it is assumed not to cause ghost events (file writes, validations) — the set of event-causing functions is closed mechanically by the events#closed obligations",
 		"heap model: objects by (struct,field) arrays, slices as (base,off,len,cap) over per-element-type backing stores, maps as (domain,value) arrays; interior pointers that escape are outside the subset",
 		"contracts naming a renamed/removed function or variable are reported as a lost proof (contract-stale), never skipped",
 	}
